@@ -75,7 +75,7 @@ def explore(ctx, extended=False, focus=None):
                "combination and order among fixed-point, secret int, secret boolean, int and float, at resolutions 0,1,4,8,12, with "
                "negative and fractional values, followed by val()/a further use; compared with the Fraction reference and, at level "
                "V, with the Lean model; distinct = (operator, kinds, resolution, error class)")
-    n = ctx.n(600, 30000) * (3 if extended else 1)
+    n = ctx.n(3600, 120000) * (3 if extended else 1)
     cases = corpus_cases("C14") + [fx_case(ctx.rnd, f"c14_{i}") for i in range(n)]
     for r in execute_all(cases):
         account(ex, r)
